@@ -111,12 +111,46 @@ def run_on(fb, chk, tag=""):
                     atoms = cm.atoms_at(s)
                     if not any(a[0] == "notok" and "handle_request" in show(a[1]) for a in atoms):
                         exits_ok = False
+        # ... and every request error leaves the loop: from an edge on which handle_request is known to have failed the
+        # loop head is not reachable again (no error class is swallowed - reply-bearing requests are answered by closing)
+        heads = {h for (_t, h) in cfg.back_edges()}
+        outside = set(range(len(cl.blocks))) - loopb
+        for d_ in sorted(loopb):
+            if cl.blocks[d_]["term"]["k"] != "switch":
+                continue
+            for sx in cfg.succ[d_]:
+                if sx not in loopb:
+                    continue
+                ea = cm.edge_atoms(d_, sx) + [a for a in cm.atoms_at(sx)]
+                failed = any(a[0] == "notok" and "handle_request" in show(a[1]) for a in ea) or \
+                    any(a[0] == "variant" and not a[3] and "handle_request" in show(a[1]) and "Err" in show(a[1]) for a in ea)
+                if failed and (heads & (cfg.reach(sx, removed=outside) | {sx})):
+                    exits_ok = False
         chk.check(in_loop and every_exit and exits_ok and len(hs) == 1, "H2", tag + "thread-epilogue",
                   "loop left only on a request error; conn.shutdown(Both) on every exit",
                   "daemon thread: handle_request in loop=%s, every exit shuts the connection down=%s, loop exits only on error=%s"
                   % (in_loop, every_exit, exits_ok), cl.loc())
         ret = cm.sym.local(0)
         chk.check("handle_request" in show(ret), "H2", tag + "thread-result", "the thread returns the request error", "thread result is %s" % show(ret)[:60], cl.loc())
+    # shutdown can be requested whenever a connection state exists (also after the daemon thread has already finished):
+    # the accessor hands out a handle iff conn_state is Some
+    for g in fb.find(name="shutdown_handle", self_adt="VhostUserDaemon"):
+        chk.fn_seen(g)
+        outs_, _sy = Summariser(fb, no_inline=lambda h: True).paths(g)
+        bad = 0
+        nsome = 0
+        for o in outs_:
+            if o.ret is None:
+                continue
+            has_state = any(a[0] == "ok" and "conn_state" in show(a[1]) for a in o.atoms)
+            is_some = ret_okness(o.ret)
+            if is_some is True:
+                nsome += 1
+            if has_state and is_some is False:
+                bad += 1
+        chk.check(nsome >= 1 and bad == 0, "H1", tag + "handle-available", "Some(handle) whenever a connection state exists",
+                  "shutdown_handle() can return None although a connection state exists (%d paths): a shutdown requested at that moment is "
+                  "not recorded and the following wait() reports the peer disconnect as an error" % bad, g.loc())
     # ------------------------------------------------------------------ H3
     chk.fn_seen(w)
     wm = must_of(fb, w)
